@@ -79,6 +79,7 @@ Failed(e) ==
     [] e.op = "quant.ranks" ->
          JudgeRanks(e, e.out)
          \cup {c \in {"C03.entry_points_agree"} : e.out # e.out_stats}
+         \cup {c \in {"C03.history_independent"} : "out_fresh" \in DOMAIN e /\ e.out # e.out_fresh}
          \cup {c \in {"C03.product_observed"} : IsFin(e.qv) /\ DySign(FDy(e.qv)) >= 0 /\ ~CorrectlyRounded(e.qn, QProd(e))}
     [] e.op = "quant.index" ->
          IF e.out.tag = "panic" THEN {"C03.no_panic"}
@@ -103,7 +104,7 @@ Clauses(e) ==
   CASE e.op = "quant.big" -> {"C03.no_panic", "C03.entry_points_agree", "C03.population_beyond_32_bits"}
                              \cup (IF e.out.tag = "ok" THEN {"C03.kind", "C03.in_range", "C03.ranks"} ELSE {})
     [] e.op = "quant.ranks" ->
-         {"C03.no_panic", "C03.domain", "C03.entry_points_agree"}
+         {"C03.no_panic", "C03.domain", "C03.entry_points_agree"} \cup (IF "out_fresh" \in DOMAIN e THEN {"C03.history_independent"} ELSE {})
          \cup (IF e.out.tag = "ok" THEN {"C03.kind", "C03.in_range", "C03.ranks", "C03.kind." \o e.confv.kind}
                                          \cup (IF e.confv.kind = "two" \/ HalfOrMoreLevel(e.confv) THEN {"C03.brackets"} ELSE {})
                ELSE IF e.out.tag = "err" THEN {"C03.rejects." \o e.out.variant} ELSE {})
